@@ -5,7 +5,13 @@ checks that the pass ends with nothing due, and compares every API result and is
 vector. Prints `ok …` or `reject …`. -/
 import TboxModel.Util
 import TboxModel.C02.Model
+import TboxModel.C02.Wide
 open Tbox.Util Tbox.C02
+
+def maxMs : Nat := 4611686018427387904        -- 2^62
+def clockMax : Nat := 7000000000000           -- ms; both virtual clocks of the harness are int64 counts of nanoseconds
+/-- the harness's virtual monotonic clock starts at 1000 ms, the abstract model's at 1 -/
+def realNow (s : State) : Nat := s.now + 999
 
 /-- isEnabled() vector; in a TimerPool case (`poolMode`) every object is owned by the pool and shows `p`
 while armed, `x` once gone -/
@@ -18,7 +24,7 @@ def bitsOf (s : State) (poolMode : Bool := false) : String :=
 
 def takeNat (cs : List Char) : Option (Nat × List Char) :=
   let ds := cs.takeWhile Char.isDigit
-  if ds.isEmpty || ds.length > 18 then none else (String.ofList ds).toNat?.map fun n => (n, cs.drop ds.length)
+  if ds.isEmpty || ds.length > 19 then none else (String.ofList ds).toNat?.map fun n => (n, cs.drop ds.length)
 
 /- callback scripts: items separated by `,`; a nested script (of a timer created inside the callback)
 is written in brackets.
@@ -58,12 +64,12 @@ partial def pItem (cs : List Char) (self : Option Nat) (pool : Bool) : Option (A
   | 'z' :: rest => if !pool then none else pure (.cleanup, rest)
   | 'a' :: rest => if !pool then none else do
       let (ms, r) ← takeNat rest
-      if ms < 1 ∨ ms > 100000 then none else
+      if ms < 1 ∨ ms > maxMs then none else
       let (sc, r') ← pNested r pool
       pure (.doAfter ms sc, r')
   | 'v' :: rest => if !pool then none else do
       let (ms, r) ← takeNat rest
-      if ms < 1 ∨ ms > 100000 then none else
+      if ms < 1 ∨ ms > maxMs then none else
       let (sc, r') ← pNested r pool
       pure (.doEvery ms sc, r')
   | 'n' :: rest => if pool then none else do
@@ -81,7 +87,7 @@ partial def pItem (cs : List Char) (self : Option Nat) (pool : Bool) : Option (A
       match r with
       | ':' :: r1 => do
         let (ms, r2) ← takeNat r1
-        if ms < 1 then none else
+        if ms < 1 ∨ ms > maxMs then none else
         match r2 with
         | ':' :: 'o' :: r3 => pure (.init k ms true, r3)
         | ':' :: 'p' :: r3 => pure (.init k ms false, r3)
@@ -106,22 +112,33 @@ inductive POp where
   | new (sc : List Act) | api (a : Act) | adv (d : Nat) | engine (e : String) | bad
   | pnew (after : Bool) (ms : Nat) (sc : List Act) | pcancel (k : Nat) | pcleanup
   | pat (tp : Int) (sc : List Act) | wall (d : Int)
+  | idle (d : Nat)
+  | wnew | winit (j : Nat) (ms : Int) (oneshot : Bool) | wen (j : Nat) | wdis (j : Nat) | wdel (j : Nat)
 
 def parseOp (s : State) (ws : List String) : POp :=
   match ws with
   | ["engine", e] => if (e == "epoll" || e == "select") && s.nObjs == 0 then .engine e else .bad
   | ["new", sc] => match parseScript sc s.nObjs with | some l => .new l | none => .bad
   | ["pafter", ms, sc] => match ms.toNat?, parseScript sc 0 true with
-      | some n, some l => if 1 ≤ n ∧ n ≤ 100000 then .pnew true n l else .bad | _, _ => .bad
+      | some n, some l => if 1 ≤ n ∧ n ≤ maxMs ∧ ms.length ≤ 19 then .pnew true n l else .bad | _, _ => .bad
   | ["pevery", ms, sc] => match ms.toNat?, parseScript sc 0 true with
-      | some n, some l => if 1 ≤ n ∧ n ≤ 100000 then .pnew false n l else .bad | _, _ => .bad
+      | some n, some l => if 1 ≤ n ∧ n ≤ maxMs ∧ ms.length ≤ 19 then .pnew false n l else .bad | _, _ => .bad
   | ["pat", tp, sc] => match tp.toNat?, parseScript sc 0 true with
       | some n, some l => if n ≤ 100000000 then .pat (Int.ofNat n) l else .bad | _, _ => .bad
   | ["wall", d] => match intOfString? d with
       | some n => if -100000 ≤ n ∧ n ≤ 100000 then .wall n else .bad | none => .bad
   | ["pcancel", k] => match k.toNat? with | some k => .pcancel k | none => .bad
   | ["pcleanup"] => .pcleanup
-  | ["adv", d] => match d.toNat? with | some n => if n ≤ 100000 then .adv n else .bad | none => .bad
+  | ["adv", d] => match d.toNat? with | some n => if n ≤ clockMax ∧ d.length ≤ 19 then .adv n else .bad | none => .bad
+  | ["idle", d] => match d.toNat? with | some n => if n ≤ clockMax ∧ d.length ≤ 19 then .idle n else .bad | none => .bad
+  | ["idlex", d] => match d.toNat? with | some n => if n ≤ clockMax ∧ d.length ≤ 19 then .idle n else .bad | none => .bad   -- wait interrupted (EINTR): same to the timers
+  | ["wnew"] => .wnew
+  | ["winit", j, ms, m] => match j.toNat?, intOfString? ms with
+      | some j, some v => if ms.length ≤ 20 ∧ -(maxMs : Int) ≤ v ∧ v ≤ maxMs ∧ (m == "o" || m == "p") ∧ !(v == 0 && m == "p") then .winit j v (m == "o") else .bad
+      | _, _ => .bad
+  | ["wen", j] => match j.toNat? with | some j => .wen j | none => .bad
+  | ["wdis", j] => match j.toNat? with | some j => .wdis j | none => .bad
+  | ["wdel", j] => match j.toNat? with | some j => .wdel j | none => .bad
   | ["init", j, ms, m] => match parseAct ("i" ++ j ++ ":" ++ ms ++ ":" ++ m) with
       | some (.init j ms o) => if j < s.nObjs then .api (.init j ms o) else .bad | _ => .bad
   | ["en", j] => match j.toNat? with | some j => if j < s.nObjs then .api (.enable j) else .bad | none => .bad
@@ -135,12 +152,14 @@ structure TAcc where
   tags : List String := []
   err : Option String := none
   nops : Nat := 0
-  mode : Nat := 0            -- 0 undecided, 1 plain TimerEvent case, 2 TimerPool case
+  mode : Nat := 0            -- 0 undecided, 1 plain TimerEvent case, 2 TimerPool case, 3 wide case (Wide.lean)
+  ws : Wide.WState := {}     -- wide cases: the width-faithful machine on the explicit heap
   wall : Int := 0            -- system clock (ms since the harness's wall epoch); `adv` moves both clocks, `wall` only this one
 
 def TAcc.bits (a : TAcc) (s : State) : String := bitsOf s (a.mode == 2)
 
 def expectLine (a : TAcc) (want : String) (what : String) : TAcc :=
+  if a.err.isSome then a else
   match a.tl with
   | l :: rest => if l == want then { a with tl := rest }
                  else { a with err := some s!"op#{a.nops} {what}: impl=[{l}] model=[{want}]" }
@@ -198,6 +217,104 @@ partial def firePass (a : TAcc) (seen : List Nat) : TAcc :=
 
 def boolStr (b : Bool) : String := if b then "1" else "0"
 
+/-- the `W` line of an idle pass against `Wide.waitCore / epollTimeout / selectTimeval`.
+Property level (plain `reject`): with a timer pending the loop must not be told to sleep for ever, past the
+nearest deadline, or with an invalid timeval.  Model level (`reject M`): the exact value. -/
+def checkWait (nops : Nat) (line : String) (front : Option UInt64) (now : UInt64) : Option String :=
+  let w := Wide.waitCore false front now
+  let rem : Option Nat := front.map fun e => e.toNat - now.toNat
+  match words line with
+  | ["W", "epoll", t] =>
+    match intOfString? t with
+    | none => some s!"op#{nops} unparsable wait line [{line}]"
+    | some t =>
+      match rem with
+      | some r =>
+        if t < 0 then some s!"op#{nops} epoll_wait is told to wait FOR EVER (timeout {t}) although a timer is due in {r} ms"
+        else if t > r then some s!"op#{nops} epoll_wait is told to sleep {t} ms, PAST the nearest deadline ({r} ms ahead)"
+        else if t != (Wide.epollTimeout w).toInt then some s!"M: op#{nops} epoll timeout impl={t} model={(Wide.epollTimeout w).toInt}"
+        else none
+      | none => if t != (Wide.epollTimeout w).toInt then some s!"M: op#{nops} epoll timeout impl={t} model={(Wide.epollTimeout w).toInt} (no timer pending)" else none
+  | ["W", "select", "null"] =>
+    match rem with
+    | some r => some s!"op#{nops} select is told to wait FOR EVER (null timeval) although a timer is due in {r} ms"
+    | none => none
+  | ["W", "select", sec, usec] =>
+    match intOfString? sec, intOfString? usec with
+    | some sec, some usec =>
+      let want := Wide.selectTimeval w
+      match rem with
+      | some r =>
+        if sec < 0 ∨ usec < 0 ∨ usec ≥ 1000000 then some s!"op#{nops} select is given an invalid timeval ({sec}, {usec})"
+        else if sec * 1000000 + usec > (r : Int) * 1000 then some s!"op#{nops} select is told to sleep ({sec} s, {usec} us), PAST the nearest deadline ({r} ms ahead)"
+        else if want.map (fun p => (p.1.toInt, p.2.toInt)) != some (sec, usec) then some s!"M: op#{nops} select timeval impl=({sec}, {usec}) model={want.map (fun p => (p.1.toInt, p.2.toInt))}"
+        else none
+      | none => some s!"M: op#{nops} select timeval impl=({sec}, {usec}) model=null (no timer pending)"
+    | _, _ => some s!"op#{nops} unparsable wait line [{line}]"
+  | _ => some s!"op#{nops} idle pass: expected the wait line of the engine, impl=[{line}]"
+
+/-- front deadline of the abstract model on the harness's clock, as the 64-bit field -/
+def frontOf (s : State) : Option UInt64 :=
+  match s.timers with
+  | [] => none
+  | r :: rs => some (UInt64.ofNat ((rs.foldl (fun m q => min m q.expired) r.expired) + 999))
+
+/-! ### wide cases: acceptor on `Wide.WState` (sorted-vector instance of the heap contract) -/
+
+def wA : Wide.Algs := Tbox.C02.Heap.sortedAlgs Wide.key
+
+def wbits (s : Wide.WState) : String :=
+  if s.objs.size = 0 then "-" else
+  String.ofList (s.objs.toList.map fun o => if !o.alive then 'x' else if o.inited && o.enabled then '1' else '0')
+
+/-- consume the `F j en=…` / `R -` lines of one pass of a wide case -/
+partial def wFirePass (a : TAcc) : TAcc :=
+  match a.tl with
+  | l :: rest =>
+    match words l with
+    | ["F", j, en] =>
+      match j.toNat? with
+      | none => { a with err := some s!"op#{a.nops} unparsable callback line [{l}]" }
+      | some j =>
+        match a.ws.loop.heap.find? (fun t => t.owner == j), a.ws.loop.heap with
+        | some t, f :: _ =>
+          if !Wide.due a.ws.now t.expired then
+            { a with err := some s!"op#{a.nops} timer {j} fired EARLY: 64-bit deadline {t.expired} > now {a.ws.now}" }
+          else if t.expired != f.expired then
+            { a with err := some s!"op#{a.nops} timer {j} (deadline {t.expired}) fired before an earlier deadline ({f.expired})" }
+          else
+            let loop0 := { a.ws.loop with heap := Wide.bringFront a.ws.loop.heap t }
+            let (loop1, sv) := Wide.handleOne wA 10000000 loop0 a.ws.now
+            if (sv.map fun x => x.timer.tok) != some t.tok then { a with err := some s!"M: op#{a.nops} wide model served another record than {j}" } else
+            let ws1 := Wide.wOnEvent { a.ws with loop := loop1 } j
+            let want := "en=" ++ wbits ws1
+            if en != want then { a with err := some s!"op#{a.nops} at entry of callback {j}: impl=[{en}] model=[{want}]" } else
+            let tags := (if t.interval.toNat ≥ 9223372036854775808 then ["w-negative"] else []) ++
+                        (if t.interval.toNat ≥ 2147483648 ∧ t.interval.toNat < 9223372036854775808 then ["w-fired-2^31+"] else [])
+            let a1 := expectLine { a with ws := ws1, tl := rest, tags := a.tags ++ ["w-fire"] ++ tags } "R -" s!"results of the calls made by callback {j}"
+            if a1.err.isSome then a1 else wFirePass a1
+        | _, _ => { a with err := some s!"op#{a.nops} callback on timer {j} which is not armed (disabled, destroyed, one-shot already fired, or never enabled)" }
+    | _ => a
+  | [] => a
+
+/-- the callbacks of one pass of a wide case at the current clock; then nothing may be due -/
+def wDrain (a : TAcc) : TAcc :=
+  if a.err.isSome then a else
+  let a1 := wFirePass a
+  if a1.err.isSome then a1 else
+  match (Wide.handleOne wA 10000000 a1.ws.loop a1.ws.now).2 with
+  | some sv => { a1 with err := some s!"op#{a1.nops} pass ended although timer {sv.timer.owner} is due (64-bit deadline {sv.timer.expired} <= now {a1.ws.now}): SKIPPED" }
+  | none => a1
+
+/-- `adv` / `idle` of a wide case: the pass, then the report line -/
+def wPass (a : TAcc) : TAcc :=
+  let a1 := wDrain a
+  if a1.err.isSome then a1 else expectLine a1 ("P ret=1 en=" ++ wbits a1.ws) "after pass"
+
+def boundaryTags (ms : Nat) : List String :=
+  (if ms ≥ 2147483646 ∧ ms ≤ 2147483650 then ["iv~2^31"] else []) ++ (if ms ≥ 4294967294 ∧ ms ≤ 4294967298 then ["iv~2^32"] else []) ++
+  (if ms > 2147483650 ∧ ms < 4294967294 then ["iv-25..49d"] else []) ++ (if ms > 4294967298 then ["iv>2^32"] else [])
+
 def stepOp (a : TAcc) (line : String) : TAcc :=
   if a.err.isSome then a else
   let a := { a with nops := a.nops + 1 }
@@ -205,14 +322,28 @@ def stepOp (a : TAcc) (line : String) : TAcc :=
   let isPool := match op with
     | .pnew _ _ _ => true | .pcancel _ => true | .pcleanup => true | .pat _ _ => true | .wall _ => true | _ => false
   let isPlain := match op with | .new _ => true | .api _ => true | _ => false
-  let op := if (isPool && a.mode == 1) || (isPlain && a.mode == 2) then POp.bad else op
+  let isWide := match op with | .wnew => true | .winit _ _ _ => true | .wen _ => true | .wdis _ => true | .wdel _ => true | _ => false
+  let op := if (isPool && a.mode != 0 && a.mode != 2) || (isPlain && a.mode != 0 && a.mode != 1) || (isWide && a.mode != 0 && a.mode != 3) then POp.bad else op
+  -- wide ops address existing objects only
+  let op := match op with
+    | .winit j _ _ => if j < a.ws.objs.size then op else POp.bad
+    | .wen j => if j < a.ws.objs.size then op else POp.bad
+    | .wdis j => if j < a.ws.objs.size then op else POp.bad
+    | .wdel j => if j < a.ws.objs.size then op else POp.bad
+    | _ => op
+  -- the clock stays below 7·10^12 ms (int64 nanoseconds)
+  let clk := if a.mode == 3 then a.ws.now.toNat else realNow a.s
+  let op := match op with
+    | .adv d => if clk + d ≤ clockMax then op else POp.bad
+    | .idle d => if clk + d ≤ clockMax then op else POp.bad
+    | _ => op
   -- doAt: only time points 1 … 100000 ms ahead of the system clock are in the model
   let op := match op with
     | .pat tp _ => if 1 ≤ tp - a.wall ∧ tp - a.wall ≤ 100000 then op else POp.bad
     | _ => op
   let a := match op with
     | .bad => a
-    | _ => if isPool then { a with mode := 2 } else if isPlain then { a with mode := 1 } else a
+    | _ => if isPool then { a with mode := 2 } else if isPlain then { a with mode := 1 } else if isWide then { a with mode := 3 } else a
   match op with
   | .bad => expectLine a "bad-op" "malformed op"
   | .engine e => expectLine { a with tags := a.tags ++ [e] } ("P engine=" ++ e) "engine"
@@ -222,7 +353,7 @@ def stepOp (a : TAcc) (line : String) : TAcc :=
   | .pnew after ms sc =>
       -- TimerPool::doAfter / doEvery: the model's `Pool.doAfter` / `Pool.doEvery` (= step (.api (.doAfter ms sc)))
       let (s', _tok) := if after then Pool.doAfter a.s ms sc else Pool.doEvery a.s ms sc
-      expectLine { a with s := s', tags := a.tags ++ ["pool"] } ("P ret=1 en=" ++ a.bits s') "pool new"
+      expectLine { a with s := s', tags := a.tags ++ ["pool"] ++ boundaryTags ms } ("P ret=1 en=" ++ a.bits s') "pool new"
   | .pat tp sc =>
       match Pool.doAt a.s a.wall tp sc with
       | some (s', _tok) => expectLine { a with s := s', tags := a.tags ++ ["pool", "doAt"] } ("P ret=1 en=" ++ a.bits s') "pool doAt"
@@ -236,8 +367,53 @@ def stepOp (a : TAcc) (line : String) : TAcc :=
       expectLine { a with s := s' } ("P ret=1 en=" ++ a.bits s') "pool cleanup"
   | .api act_ =>
       let (s', r) := act a.s act_
-      expectLine { a with s := s' } ("P ret=" ++ boolStr r ++ " en=" ++ a.bits s') "api result"
+      let tg := match act_ with | .init _ ms _ => boundaryTags ms | _ => []
+      expectLine { a with s := s', tags := a.tags ++ tg } ("P ret=" ++ boolStr r ++ " en=" ++ a.bits s') "api result"
+  | .wnew =>
+      let ws := Wide.wNew a.ws
+      expectLine (wDrain { a with ws := ws, tags := a.tags ++ ["wide"] }) ("P ret=1 en=" ++ wbits ws) "wnew"
+  | .winit j ms o =>
+      let (ws, r) := Wide.wInit wA a.ws j (Int64.ofInt ms) o
+      let tg := if ms < 0 then ["w-init-negative"] else if ms == 0 then ["w-init-zero"] else boundaryTags ms.toNat
+      expectLine (wDrain { a with ws := ws, tags := a.tags ++ tg }) ("P ret=" ++ boolStr r ++ " en=" ++ wbits ws) "winit"
+  | .wen j =>
+      let (ws, r) := Wide.wEnable wA a.ws j
+      let ok := Tbox.C02.Heap.isHeapB Wide.key ws.loop.heap
+      if !ok then { a with err := some s!"M: op#{a.nops} wide model: vector not heap-ordered" } else
+      expectLine (wDrain { a with ws := ws }) ("P ret=" ++ boolStr r ++ " en=" ++ wbits ws) "wen"
+  | .wdis j =>
+      let (ws, r) := Wide.wDisable wA a.ws j
+      expectLine (wDrain { a with ws := ws }) ("P ret=" ++ boolStr r ++ " en=" ++ wbits ws) "wdis"
+  | .wdel j =>
+      let (ws, r) := Wide.wDestroy wA a.ws j
+      expectLine (wDrain { a with ws := ws }) ("P ret=" ++ boolStr r ++ " en=" ++ wbits ws) "wdel"
+  | .idle d =>
+      -- the loop goes to sleep (no next-function pending): the wait it asks for, then as `adv d`
+      let (front, now) := if a.mode == 3 then (a.ws.loop.heap.head?.map (·.expired), a.ws.now)
+                          else (frontOf a.s, UInt64.ofNat (realNow a.s))
+      match a.tl with
+      | [] => { a with err := some s!"op#{a.nops} idle pass: impl=<missing>" }
+      | l :: rest =>
+        match checkWait a.nops l front now with
+        | some e => { a with err := some e }
+        | none =>
+          let wtag := match front with
+            | none => "idle-none"
+            | some e => if e.toNat - now.toNat > 2147483647 then "idle-clamped" else if e.toNat ≤ now.toNat then "idle-due" else "idle-wait"
+          let a := { a with tl := rest, tags := a.tags ++ ["idle", wtag] }
+          if a.mode == 3 then wPass { a with ws := { a.ws with now := a.ws.now + UInt64.ofNat d } }
+          else
+            let s1 := step (step a.s (.advance d)) .beginPass
+            let a1 := firePass { a with s := s1, wall := a.wall + d } []
+            if a1.err.isSome then a1 else
+            if !valid a1.s .endPass then
+              let due := a1.s.timers.filter fun r => r.expired ≤ a1.s.passNow.getD 0
+              { a1 with err := some s!"op#{a1.nops} pass ended although timer(s) {due.map (·.owner)} are due: SKIPPED" }
+            else
+              let s2 := step a1.s .endPass
+              expectLine { a1 with s := s2 } ("P ret=1 en=" ++ a1.bits s2) "after idle pass"
   | .adv d =>
+      if a.mode == 3 then wPass { a with ws := { a.ws with now := a.ws.now + UInt64.ofNat d } } else
       let s1 := step (step a.s (.advance d)) .beginPass
       let a1 := firePass { a with s := s1, wall := a.wall + d } []
       if a1.err.isSome then a1 else
